@@ -69,6 +69,21 @@ impl TokenType {
     }
 }
 
+/// A text as it appears in a one-line message: control characters are shown
+/// escaped, everything else (quotes and backslashes too) as it is written.
+#[must_use]
+pub fn escape_control(text: &str) -> String {
+    text.chars()
+        .map(|c| {
+            if c.is_control() {
+                c.escape_debug().to_string()
+            } else {
+                c.to_string()
+            }
+        })
+        .collect()
+}
+
 impl Display for TokenType {
     fn fmt(&self, f: &mut std::fmt::Formatter) -> std::fmt::Result {
         match self {
@@ -77,9 +92,9 @@ impl Display for TokenType {
             TokenType::Directive(s) => write!(f, "DIRECTIVE({s})"),
             // These end up in one-line messages: control characters of the
             // decoded text are shown escaped
-            TokenType::String(s) => write!(f, "STRING({})", s.escape_debug()),
-            TokenType::Char(c) => write!(f, "CHAR({})", c.escape_debug()),
-            TokenType::Comment(s) => write!(f, "COMMENT{}", s.escape_debug()),
+            TokenType::String(s) => write!(f, "STRING({})", escape_control(s)),
+            TokenType::Char(c) => write!(f, "CHAR({})", escape_control(&c.to_string())),
+            TokenType::Comment(s) => write!(f, "COMMENT{}", escape_control(s)),
             TokenType::Newline => write!(f, "NEWLINE"),
             TokenType::LParen => write!(f, "LPAREN"),
             TokenType::RParen => write!(f, "RPAREN"),
